@@ -28,7 +28,8 @@
 #define MAXP   8
 #define MAXPC  8
 #define SENT   ((aligned_t)0x5e5e5e5e5e5e5e5eULL)
-#define ARENA_WORDS (1 << 16)
+#define MAXBIG 4096            /* 'many words' scripts: only the touched word and a sample are printed */
+#define ARENA_WORDS (1 << 21)
 
 static aligned_t arena[ARENA_WORDS] __attribute__((aligned(64)));
 static size_t    arena_next = 8;
@@ -91,7 +92,24 @@ static aligned_t precond_body(void *arg)
     return P->retval;
 }
 
+/* qthread_fork_copyargs_precond copies the argument: the copy holds a pointer to the descriptor */
+static aligned_t precond_body_ca(void *arg) { return precond_body(*(void **)arg); }
+
 #define PCA(i) (&S->W[P->pcs[i]])
+#define VARARGS_CALL(CALL)                                                         \
+    switch (n) {                                                                   \
+        case 1: return CALL(1, PCA(0));                                            \
+        case 2: return CALL(2, PCA(0), PCA(1));                                    \
+        case 3: return CALL(3, PCA(0), PCA(1), PCA(2));                            \
+        case 4: return CALL(4, PCA(0), PCA(1), PCA(2), PCA(3));                    \
+        case 5: return CALL(5, PCA(0), PCA(1), PCA(2), PCA(3), PCA(4));            \
+        case 6: return CALL(6, PCA(0), PCA(1), PCA(2), PCA(3), PCA(4), PCA(5));    \
+        default: return -98;                                                       \
+    }
+#define C_PRECOND(...)        qthread_fork_precond(precond_body, P, ret, __VA_ARGS__)
+#define C_PRECOND_TO(...)     qthread_fork_precond_to(precond_body, P, ret, 0, __VA_ARGS__)
+#define C_PRECOND_SIMPLE(...) qthread_fork_precond_simple(precond_body, P, ret, __VA_ARGS__)
+#define C_PRECOND_CA(...)     qthread_fork_copyargs_precond(precond_body_ca, &P, sizeof(P), NULL, __VA_ARGS__)
 static int do_spawn(task_t *T)
 {
     pre_t     *P   = &S->P[T->sp_k];
@@ -101,21 +119,23 @@ static int do_spawn(task_t *T)
     for (int i = 0; i < n; i++) arr[i] = PCA(i);
     P->spawned = 1;
     __sync_synchronize();
+    /* every entry point, in both calling conventions (positive count = varargs, negative count = array) */
     switch (T->sp_variant) {
+        case 0: return qthread_fork_precond(precond_body, P, ret, -n, arr);
         case 1: return qthread_fork_precond_to(precond_body, P, ret, 0, -n, arr);
         case 2: return qthread_fork_precond_simple(precond_body, P, ret, -n, arr);
-        case 3: /* variadic form */
-            switch (n) {
-                case 1: return qthread_fork_precond(precond_body, P, ret, 1, PCA(0));
-                case 2: return qthread_fork_precond(precond_body, P, ret, 2, PCA(0), PCA(1));
-                case 3: return qthread_fork_precond(precond_body, P, ret, 3, PCA(0), PCA(1), PCA(2));
-                case 4: return qthread_fork_precond(precond_body, P, ret, 4, PCA(0), PCA(1), PCA(2), PCA(3));
-                case 5: return qthread_fork_precond(precond_body, P, ret, 5, PCA(0), PCA(1), PCA(2), PCA(3), PCA(4));
-                case 6: return qthread_fork_precond(precond_body, P, ret, 6, PCA(0), PCA(1), PCA(2), PCA(3), PCA(4), PCA(5));
-                default: break;
-            }
-        /* fall through for other n */
-        default: return qthread_fork_precond(precond_body, P, ret, -n, arr);
+        case 3: VARARGS_CALL(C_PRECOND)
+        case 4: VARARGS_CALL(C_PRECOND_TO)
+        case 5: VARARGS_CALL(C_PRECOND_SIMPLE)
+        case 6: VARARGS_CALL(C_PRECOND_CA)
+        case 7: return qthread_fork_copyargs_precond(precond_body_ca, &P, sizeof(P), NULL, -n, arr);
+        case 8: {   /* qthread_spawn with the precondition array handed over directly ([0] = count; freed by the runtime) */
+            aligned_t **pc = (aligned_t **)MALLOC((n + 1) * sizeof(aligned_t *));
+            pc[0] = (aligned_t *)(uintptr_t)n;
+            for (int i = 0; i < n; i++) pc[i + 1] = arr[i];
+            return qthread_spawn(precond_body, P, 0, ret, n, pc, NO_SHEPHERD, 0);
+        }
+        default: return -97;
     }
 }
 
@@ -195,8 +215,8 @@ static int ident(qthread_t *waiter)
         if (T >= S->T && T < S->T + S->ntasks) return T->id;
         return 900;
     }
-    if (waiter->f == precond_body) {
-        pre_t *P = (pre_t *)waiter->arg;
+    if (waiter->f == precond_body || waiter->f == precond_body_ca) {
+        pre_t *P = (waiter->f == precond_body) ? (pre_t *)waiter->arg : *(pre_t **)waiter->arg;
         if (P >= S->P && P < S->P + S->npre) return 100 + P->k;
         return 901;
     }
@@ -237,16 +257,23 @@ static void audit(const aligned_t *addr, audit_t *A)
     qt_hash_unlock(FEBs[lockbin]);
 }
 
-static int enqueued_somewhere(int id, int want_nascent)
+static int enqueued_on(int w, int id, int want_nascent)
 {
     audit_t A;
-    for (int w = 0; w < S->nwords; w++) {
-        audit(&S->W[w], &A);
-        for (int i = 0; i < 4; i++)
-            for (int j = 0; j < A.n[i]; j++)
-                if (A.ids[i][j] == id && (want_nascent < 0 || A.nascent[i][j] == want_nascent)) return 1;
-    }
+    audit(&S->W[w], &A);
+    for (int i = 0; i < 4; i++)
+        for (int j = 0; j < A.n[i]; j++)
+            if (A.ids[i][j] == id && (want_nascent < 0 || A.nascent[i][j] == want_nascent)) return 1;
     return 0;
+}
+/* a precondition task can only sit on one of its precondition words (nascent) or on its return word */
+static int pre_enqueued(pre_t *P, int want_nascent)
+{
+    if (want_nascent) {
+        for (int i = 0; i < P->n; i++) if (enqueued_on(P->pcs[i], 100 + P->k, 1)) return 1;
+        return 0;
+    }
+    return P->retmode ? enqueued_on(P->retw, 100 + P->k, 0) : 0;
 }
 
 /* quiescent: every pending call is observably enqueued, every spawned-not-started task is parked */
@@ -254,13 +281,13 @@ static int quiescent(char *why)
 {
     for (int i = 0; i < S->ntasks + S->next; i++) {
         task_t *T = &S->T[i];
-        if (T->in_call && !enqueued_somewhere(T->id, -1)) { sprintf(why, "task %d in a call, not enqueued", T->id); return 0; }
+        if (T->in_call && !(T->opc != O_spawn && enqueued_on(T->w, T->id, -1))) { sprintf(why, "task %d in a call, not enqueued", T->id); return 0; }
         if (!T->in_call && T->cmd_seq != T->done_seq) { sprintf(why, "task %d finishing", T->id); return 0; }
     }
     for (int k = 0; k < S->npre; k++) {
         pre_t *P = &S->P[k];
-        if (P->spawned && !P->started && !enqueued_somewhere(100 + k, 1)) { sprintf(why, "precond task %d neither parked nor started", 100 + k); return 0; }
-        if (P->started && !P->finished && !enqueued_somewhere(100 + k, 0)) { sprintf(why, "precond task %d running", 100 + k); return 0; }
+        if (P->spawned && !P->started && !pre_enqueued(P, 1)) { sprintf(why, "precond task %d neither parked nor started", 100 + k); return 0; }
+        if (P->started && !P->finished && !pre_enqueued(P, 0)) { sprintf(why, "precond task %d running", 100 + k); return 0; }
     }
     return 1;
 }
@@ -293,13 +320,22 @@ static void print_list(const audit_t *A, int i)
     putchar(']');
 }
 
-static void print_words(void)
+static void print_word(int w)
 {
     audit_t A;
-    for (int w = 0; w < S->nwords; w++) {
-        audit(&S->W[w], &A);
-        printf(" W%d=%d,%d,%d,%lld,", w, A.present, A.full, qthread_feb_status(&S->W[w]), (long long)S->W[w]);
-        print_list(&A, 0); putchar(','); print_list(&A, 1); putchar(','); print_list(&A, 2); putchar(','); print_list(&A, 3);
+    audit(&S->W[w], &A);
+    printf(" W%d=%d,%d,%d,%lld,", w, A.present, A.full, qthread_feb_status(&S->W[w]), (long long)S->W[w]);
+    print_list(&A, 0); putchar(','); print_list(&A, 1); putchar(','); print_list(&A, 2); putchar(','); print_list(&A, 3);
+}
+
+static void print_words(int touched)
+{
+    if (S->nwords <= MAXW) {
+        for (int w = 0; w < S->nwords; w++) print_word(w);
+    } else {        /* many words: the touched word, its neighbour and one word chosen by the step number */
+        print_word(touched);
+        print_word((touched + 1) % S->nwords);
+        print_word((int)((17L * touched + step_no) % S->nwords));
     }
 }
 
@@ -347,7 +383,7 @@ static int run_step(task_t *T)
     printf(" |");
     for (int k = 0; k < S->npre; k++) if (!wasstarted[k] && S->P[k].started) printf(" %d", 100 + k);
     printf(" |");
-    print_words();
+    print_words(T->w);
     printf("\n");
     fflush(stdout);
     return 1;
@@ -358,7 +394,7 @@ static int run_step(task_t *T)
  * (A non-qthread controller is not possible either: with one worker the runtime creates its FEB hash tables without locks.) */
 static aligned_t controller(void *unused)
 {
-    char line[1024];
+    static char line[1 << 16];
     printf("H %d %d\n", (int)qthread_num_shepherds(), (int)qthread_num_workers());
     fflush(stdout);
     while (fgets(line, sizeof(line), stdin)) {
@@ -371,13 +407,13 @@ static aligned_t controller(void *unused)
             if (S) {   /* retire the previous script: unblocked tasks exit, blocked ones are abandoned */
                 for (int i = 0; i < S->ntasks + S->next; i++) S->T[i].quit = 1;
             }
-            if (nt > MAXT || ne > MAXE || np > MAXP || nw > MAXW || arena_next + MAXW + 8 > ARENA_WORDS) { printf("ERR limits\n"); fflush(stdout); continue; }
+            if (nt > MAXT || ne > MAXE || np > MAXP || nw > MAXBIG || (nw > MAXW && np > 0) || arena_next + nw + 8 > ARENA_WORDS) { printf("ERR limits\n"); fflush(stdout); continue; }
             script_t *N = calloc(1, sizeof(script_t));
             N->ntasks = nt; N->next = ne; N->npre = np; N->nwords = nw;
-            N->W = &arena[arena_next]; arena_next += MAXW + 2;
+            N->W = &arena[arena_next]; arena_next += (nw > MAXW ? nw : MAXW) + 2;
             N->T = calloc(nt + ne + 1, sizeof(task_t));
             N->P = calloc(np + 1, sizeof(pre_t));
-            for (int w = 0; w < nw; w++) { long long v = 0; sscanf(line + off, "%lld%n", &v, &adv); off += adv; N->W[w] = (aligned_t)v; }
+            for (int w = 0; w < nw; w++) { long long v = 0; adv = 0; if (sscanf(line + off, "%lld%n", &v, &adv) == 1) off += adv; else v = 0; N->W[w] = (aligned_t)v; }   /* missing values: 0 */
             N->prev = S;
             S = N;
             step_no = 0;
